@@ -158,23 +158,25 @@ theorem truncate_spec (p : List K) (k : Nat) :
   TF.Proofs.PolyD.truncate_spec root p k
 example : (3 : Nat) - (5 + 1) = 0 := rfl
 
-/-- `truncate(k)` **as compiled** (release profile: `k + 1` in `usize`, wrapping): for every `k < usize::MAX` it is
-    the function of `truncate_spec` — the `k+1` highest coefficients, for every storage -/
-theorem truncate_usize_spec (p : List K) (k : Nat) (hk : k + 1 < 2 ^ 64) :
+/-- `truncate(k)` **as compiled** (after the repair F13: `take(k.saturating_add(1))` in `usize`): for EVERY `k`,
+    `usize::MAX` included, and every polynomial with fewer than `2^64` coefficients (every one that fits in memory) it
+    is the function of `truncate_spec` — the `k+1` highest coefficients, for every storage -/
+theorem truncate_usize_spec (p : List K) (k : Nat) (hlen : (revNorm FK p).length < 2 ^ 64) :
     denote (truncateUsize FK p k) = denote p / X ^ (degSucc FK p - (k + 1)) := by
-  rw [TF.Model.PolyD.truncateUsize_eq root p k hk]; exact TF.Proofs.PolyD.truncate_spec root p k
-example : (0 : Nat) + 1 < 2 ^ 64 := by norm_num
+  rw [TF.Model.PolyD.truncateUsize_eq root p k hlen]; exact TF.Proofs.PolyD.truncate_spec root p k
+example : truncateUsize (FieldOps.ofField ℚ) [1, 2, 3] (2 ^ 64 - 1) = [1, 2, 3] := by
+  unfold truncateUsize revNorm TF.Model.PolyD.USIZE_MOD; simp [FieldOps.ofField]
 
-/-- **finding F13** — the excluded value `k = usize::MAX`: the compiled `truncate` returns the zero polynomial for
-    every input (the dev/test profile panics instead), while the documented result — the right-hand side of
-    `truncate_spec` — is the polynomial itself; so the property fails there for every non-zero polynomial
-    (with fewer than `2^64` coefficients, i.e. every one that fits in memory).  Witness on the implementation:
-    `[1,2,3].truncate(usize::MAX) = 0`. -/
-theorem truncate_usize_max_violates (p : List K) (hlen : degSucc FK p ≤ 2 ^ 64) (hp : denote p ≠ 0) :
-    truncateUsize FK p (2 ^ 64 - 1) = [] ∧
+/-- **defect F13, for the record** (repaired by a `fix:` commit): `truncate` as it was compiled before the repair
+    (`take(k + 1)`, `k + 1` wrapping in `usize`) returned the zero polynomial at `k = usize::MAX` for every input (the
+    dev/test profile panicked instead), while the documented result — the right-hand side of `truncate_spec` — is the
+    polynomial itself; so the property failed there for every non-zero polynomial.  Witness on the implementation
+    before the repair: `[1,2,3].truncate(usize::MAX) = 0`. -/
+theorem truncate_usize_max_violated_before_F13 (p : List K) (hlen : degSucc FK p ≤ 2 ^ 64) (hp : denote p ≠ 0) :
+    truncateBeforeF13 FK p (2 ^ 64 - 1) = [] ∧
     denote p / X ^ (degSucc FK p - (2 ^ 64 - 1 + 1)) = denote p ∧
-    denote (truncateUsize FK p (2 ^ 64 - 1)) ≠ denote p / X ^ (degSucc FK p - (2 ^ 64 - 1 + 1)) := by
-  have h0 := TF.Model.PolyD.truncateUsize_max root p
+    denote (truncateBeforeF13 FK p (2 ^ 64 - 1)) ≠ denote p / X ^ (degSucc FK p - (2 ^ 64 - 1 + 1)) := by
+  have h0 := TF.Model.PolyD.truncateBeforeF13_max root p
   have he : degSucc FK p - (2 ^ 64 - 1 + 1) = 0 := by omega
   have hq : denote p / X ^ (degSucc FK p - (2 ^ 64 - 1 + 1)) = denote p := by
     rw [he, pow_zero]; exact EuclideanDomain.div_one _
